@@ -299,7 +299,7 @@ SrcPos
 sposNew(FileName fname, Length flno, Length glno, Length cno)
 {
 	FileName prevName;
-	int	 prevGlno;
+	int	 prevGlno, prevFlno;
 
 	assert(gloLineTbl);
 
@@ -308,13 +308,22 @@ sposNew(FileName fname, Length flno, Length glno, Length cno)
 	if (gloPos) {
 		prevName = gloLineTbl[gloPos - 1].fn;
 		prevGlno = gloLineTbl[gloPos - 1].glno;
+		prevFlno = gloLineTbl[gloPos - 1].flno;
 	}
 	else {
 		prevName = gloLineTbl[gloPos].fn;
 		prevGlno = gloLineTbl[gloPos].glno;
+		prevFlno = gloLineTbl[gloPos].flno;
 	}
 
-	if (glno <= prevGlno || prevName == 0 || !fnameEqual(fname, prevName))
+	/*
+	 * A run of the table stands for one file and one offset between
+	 * global and local line numbers.  A line of the same file that does
+	 * not continue the run (the includer's next line, after an included
+	 * file that named the includer in a #line) needs a run of its own.
+	 */
+	if (glno <= prevGlno || prevName == 0 || !fnameEqual(fname, prevName)
+	    || (int) flno - prevFlno != (int) glno - prevGlno)
 	  
 	  sposGrowGloLineTbl(fname, flno, glno);
 	
